@@ -62,6 +62,8 @@ fn inverted(f: &AlFlags) -> AlFlags {
         posix_escapes: Some(!f.eff_posix()),
         allow_wholeline_comments: f.allow_wholeline_comments,
         case_insensitive: Some(!f.eff_ci()),
+        swap_greed: Some(!f.eff_swap_greed()),
+        ignore_whitespace: f.ignore_whitespace,
     }
 }
 
